@@ -198,11 +198,13 @@ fn state_checks_case(c: &Case, st: &St) -> Option<String> {
 
 fn violation_for(c: &Case, st: &St, what: &str) -> Violation {
     let acts = acts_str(&st.hist);
+    let class = if what.starts_with("ALLOC ") { "alloc" } else { "wrong_result" };
     Violation {
-        class: "wrong_result".into(),
+        class: class.into(),
         key: ((c.needle.len() as u64) << 40) | ((c.hay.len() as u64) << 16) | st.hist.len() as u64,
         what: format!(
-            "[wrong_result] {} {:?} needle={} haystack={} (len {}) after history [{}]: {}",
+            "[{}] {} {:?} needle={} haystack={} (len {}) after history [{}]: {}",
+            class,
             if c.rev { "rfind_iter" } else { "find_iter" },
             c.source,
             show(c.needle),
@@ -224,7 +226,7 @@ fn violation_for(c: &Case, st: &St, what: &str) -> Violation {
             "--actions".into(),
             if acts.is_empty() { "-".into() } else { acts.clone() },
         ],
-        detail: json!({"class": "wrong_result", "rev": c.rev, "source": format!("{:?}", c.source), "needle": hex(c.needle), "haystack": hex(c.hay), "history": acts, "family": c.family}),
+        detail: json!({"class": class, "rev": c.rev, "source": format!("{:?}", c.source), "needle": hex(c.needle), "haystack": hex(c.hay), "history": acts, "family": c.family}),
     }
 }
 
@@ -251,9 +253,13 @@ fn step_case(c: &Case, last: &St, act: Act) -> (St, bool) {
             // as a disagreement with the (finite) reference sequence anyway.
             let watch = c.family.starts_with("PF");
             let before = if watch { last.it.dbg() } else { String::new() };
+            let a0 = crate::alloc::allocs();
             let got = st.it.next();
+            let made = crate::alloc::allocs() - a0;
             let exp = c.reference.get(last.taken as usize).copied();
-            if got != exp {
+            if made > 0 {
+                bad = Some(format!("ALLOC next() made {} heap allocation(s)", made));
+            } else if got != exp {
                 bad = Some(format!("next() returned {:?}, reference model {:?}", got, exp));
             } else if got.is_none() {
                 st.post += 1;
@@ -269,8 +275,14 @@ fn step_case(c: &Case, last: &St, act: Act) -> (St, bool) {
             }
         }
         Act::Clone => {
+            let a0 = crate::alloc::allocs();
             st.it = last.it.clone();
-            if st.it.dbg() != last.it.dbg() {
+            let made = crate::alloc::allocs() - a0;
+            // cloning a BORROWED iterator must not touch the heap (an owned
+            // one has to copy its boxed needle)
+            if made > 0 && !last.hist.contains(&Act::IntoOwned) {
+                bad = Some(format!("ALLOC clone() of a borrowed iterator made {} heap allocation(s)", made));
+            } else if st.it.dbg() != last.it.dbg() {
                 bad = Some("clone() renders differently from the original".into());
             }
         }
